@@ -15,16 +15,19 @@ import json
 import random
 from typing import Any
 
-from harness.common import WORK, Ctx, MachineryError, cleanup_tlc, parse_tlc_values, run_tlc, tlc_must_pass
+from harness.common import WORK, Ctx, MachineryError, cleanup_tlc, parse_tlc_values, run_tlc, tla, tlc_must_pass
 from harness.pool import run_tasks
 
 LEVEL = "model_checking"
 
-STANDINS = {"J2O_HostFacts.tla": "---- MODULE J2O_HostFacts ----\nFactWithinDup == FALSE\n====\n"}
+STANDINS = {"J2O_HostFacts.tla": "---- MODULE J2O_HostFacts ----\nFactWithinDup == FALSE\n====\n",
+            "J2O_UnwindFacts.tla": '---- MODULE J2O_UnwindFacts ----\nEXTENDS TLC\nManagerFacts == [a |-> "finally"]\n====\n'}
 
 
 def _leaf_specs(within_dup: bool):
-    return [["s3", "s1", "s3"], ["s1", "s2"]] if within_dup else [["s3", "s1"], ["s1", "s2"]]
+    # third plugin: slot s4 is an attribute its target only INHERITS (from the class holding s1) -- MCInherit
+    return [["s3", "s1", "s3"], ["s1", "s2"], ["s4"]] if within_dup else [["s3", "s1"], ["s1", "s2"], ["s4"]]
+INHERIT = {"s4": "s1"}
 FN_SLOTS = ["f1", "f2"]
 MISSING = ["s3"]
 
@@ -43,7 +46,7 @@ def _sim_logs(seed: int, num: int, facts: dict[str, str], cfg: str = "SIM_Host.c
 def _replay_job(logs, within_dup):
     from harness.hostreplay import replay_logs
 
-    return replay_logs(logs, _leaf_specs(within_dup), FN_SLOTS, MISSING)
+    return replay_logs(logs, _leaf_specs(within_dup), FN_SLOTS, MISSING, INHERIT)
 
 
 def _history_job(history, tid):
@@ -134,8 +137,45 @@ def _to_real(conv: dict[str, Any], space: dict[str, Any], rng: random.Random, pr
     return {"kind": kind, "fault": fault, "x64_before": None}
 
 
+def _unwind_job():
+    import os
+
+    from harness.unwindjobs import drive_real, manager_facts
+
+    return {"facts": manager_facts(os.environ.get("J2O_REPO", "/repo")), "runs": drive_real()}
+
+
+def unwind_discipline(ctx: Ctx, what: str = "x64") -> int:
+    """J2O_Unwind: the way every @contextmanager attaches its teardown is a fact (AST); TLC checks that the
+    teardown runs on every exit path; the real state-guarding managers are left on every path and observed."""
+    uj = run_tasks([{"fn": "harness.checks.c13:_unwind_job", "args": {}, "timeout": 600}], nworkers=1, timeout=600, fresh_each=True)[0][1]
+    if uj.get("status") != "ok":
+        raise MachineryError(f"unwind job failed: {str(uj)[:500]}")
+    facts, runs = uj["result"]["facts"], uj["result"]["runs"]
+    ctx.extra["context_managers"] = facts
+    if facts:
+        mod = "---- MODULE J2O_UnwindFacts ----\nEXTENDS TLC\nManagerFacts == " + tla(facts) + "\n====\n"
+        ru = run_tlc("J2O_Unwind", "MC_Unwind.cfg", gen_files={"J2O_UnwindFacts.tla": mod}, timeout=300, coverage=False)
+        tlc_must_pass(ru, "J2O_Unwind")
+        ctx.add_tlc(ru, "J2O_Unwind")
+        if ru.violated:
+            m = [l.strip() for l in ru.output.splitlines() if l.strip().startswith("/\\ mgr =") or l.strip().startswith("/\\ path =")]
+            ctx.extra["unwind_tlc_counterexample"] = " ".join(m[:2]) or ru.violated
+        cleanup_tlc(ru)
+    bad = [r_ for r_ in runs if not r_["restored"]]
+    for r_ in runs:
+        ctx.count(("unwind", r_["manager"], r_["start"], r_["target"], r_["path"]), nontrivial=r_["start"] != r_["target"])
+    for r_ in bad:
+        ctx.violation({"engine": "unwind_real", "manager": r_["manager"], "path": r_["path"]},
+                      f"{r_['manager']}({r_['target']}) entered with jax_enable_x64={r_['start']} and left by {r_['path']}: the flag is {r_['after']} afterwards", r_)
+    if ctx.extra.get("unwind_tlc_counterexample") and not bad:
+        ctx.extra["conformance_drift_unwind"] = "a manager's teardown is not attached with try/finally, but the driven managers restored their state on every path"
+    return len(runs)
+
+
 def run(ctx: Ctx) -> None:
     rng = random.Random(ctx.seed)
+    unwind_discipline(ctx)
     # ---------------- facts extracted from the real registry
     sp = run_tasks([{"fn": "harness.checks.c13:_index_space_job", "args": {}, "timeout": 300}], nworkers=1, timeout=300)[0][1]
     if sp.get("status") != "ok":
@@ -219,6 +259,10 @@ def run(ctx: Ctx) -> None:
     # alternating precision with the user's flag set either way
     for xb in (False, True):
         histories.append([{"kind": k, "fault": None, "x64_before": xb} for k in ("ok_double", "ok", "user_raise_double", "fn_ok_double", "save_fail_double", "ok")])
+    # unwinding must not depend on the exception class: BaseException (Ctrl-C, SystemExit) while the
+    # precision flag is switched either way
+    for xb in (False, True):
+        histories.append([{"kind": k, "fault": None, "x64_before": xb} for k in ("user_interrupt_double", "ok", "user_exit", "user_exit_double", "user_interrupt", "ok_double")])
     # kinds that must be exercised on every run, whatever the seed picked above
     histories.append([{"kind": k, "fault": None} for k in ("jit_user", "ok", "nnx_linear", "nnx_block", "eqx_linear", "fn_bodytrace_fail", "fn_body_fail", "fn_ok", "loop_fail", "unsupported", "bad_names", "save_fail", "ir_mode", "ok")])
     tasks = [{"fn": "harness.checks.c13:_history_job", "args": {"history": h, "tid": i}, "timeout": 900} for i, h in enumerate(histories)]
